@@ -63,7 +63,7 @@ def run(ctx):
         ctx.sample({"generated_vector": smp})
     # 3. impl -> spec
     tr = os.path.join(ctx.scratch, "listmatch.ndjson")
-    n = 20000 if quick else 100000
+    n = 12000 if quick else 100000
     recs, _, _ = ctx.harness(binp, ["random", tr, "-seed", ctx.seed, "-n", n])
     s2 = ctx.summary(recs)
     ctx.take_mismatches(recs)          # panics only
